@@ -3,7 +3,7 @@
    ENIs); the ipvlan, exclusive-ENI and vlan datapaths are judged by the clauses on their generators' output only
    (their link types do not exist here) — the level of this property is partial. *)
 From Coq Require Import ZArith List Bool.
-From TV Require Import DpModel DpProofs.
+From TV Require Import DpModel DpProofs DpProofs2.
 Import ListNotations.
 Local Open Scope Z_scope.
 
@@ -15,6 +15,12 @@ Theorem c13_setup_routes_as_intended_partial : forall s a j fam h g f,
   look_to (setup s a j fam h) f a = 100 + s /\ look_from (setup s a j fam h) f a = (200 + j, gw_of j).
 Proof. exact setup_lookups. Qed.
 Print Assumptions c13_setup_routes_as_intended_partial.
+
+(* a setup changes no rule of another address *)
+Theorem c13_setup_spares_others_partial : forall s a j fam h r, hr_src r <> a -> hr_dst r <> a ->
+  (In r (h_rules (setup s a j fam h)) <-> In r (h_rules h)).
+Proof. intros s a j fam h r Hs Hd. apply setup_spares_other_rules. apply other_address_foreign; assumption. Qed.
+Print Assumptions c13_setup_spares_others_partial.
 
 (* a teardown leaves no rule of the pod's address, no veth, no route through it ... *)
 Theorem c13_teardown_removes_all_partial : forall s a fam h,
